@@ -1,6 +1,6 @@
 """C02 - expression tables equal the documented weighting of reported read assignments."""
 import os
-from collections import defaultdict, OrderedDict
+from collections import Counter, defaultdict, OrderedDict
 
 from hypothesis import strategies as st
 
@@ -17,7 +17,9 @@ RULE = ("Hypothesis-generated scenarios: multi-isoform genes (1-4 chromosomes, o
         "unique, ambiguous (truncated), inconsistent (unannotated structure / alignment artefacts), intergenic, "
         "unmapped, and primary+secondary pairs; x 5 transcript x 5 gene strategies x 2 normalisations, with and "
         "without model construction. Non-trivial = the run reports >=1 ambiguous and >=1 inconsistent record and >=2 "
-        "features with non-zero expectation; distinct by scenario hash.")
+        "features with non-zero expectation; distinct by scenario hash. Added later: --high_memory (40%), reads with a "
+        "worse secondary alignment inside an intron or between genes; clause: a read reported once and for one gene "
+        "only must not carry an ambiguous gene-level type.")
 ASSUMPTIONS = ["read_assignments.tsv lists exactly the records the counters saw (one record per (read, chr, exons))",
                "for reads kept on several loci the __ambiguous/__no_feature lines may count reads or records "
                "(statement ambiguous): any value in [reads, records] is accepted",
@@ -71,6 +73,26 @@ def scenarios(draw):
     for _ in range(src.int(0, 3)):
         k += 1
         reads.append(S.unmapped_read("r%d" % k))
+    # reads of a gene with a second, worse alignment (a secondary record, MAPQ 0) inside an intron of some gene or
+    # between genes: the alignment that is kept may match several isoforms of the one gene
+    genic = [r for r in reads if r.get("c") is not None and not r["f"] & 256]
+    introns = [(g["chr"], t["exons"][i][1] + 1, t["exons"][i + 1][0] - 1) for g, t in S.transcripts_of(sc)
+               for i in range(len(t["exons"]) - 1) if t["exons"][i + 1][0] - t["exons"][i][1] > 90]
+    for _ in range(src.int(0, 4)):
+        if not genic:
+            break
+        r = src.choice(genic)
+        if introns and src.bool(0.75):
+            c, a, b = src.choice(introns)
+            x = src.int(a + 5, b - 65)
+            s2 = R.make_read(r["n"], c, [[x, min(b - 5, x + src.int(55, 200))]], flag=r["f"] & 16, mapq=0)
+        else:
+            s2 = S.intergenic_read(src, sc, r["n"])
+        if s2 is not None:
+            s2["f"] |= 256
+            # (alignments that are not consistent with an isoform are dropped when their MAPQ is below 5)
+            s2["q"] = src.choice([0, 10, 30])
+            reads.append(s2)
     lens = {c[0]: c[1] for c in sc["chroms"]}
     sc["reads"] = [r for r in reads if r.get("c") is None or
                    (r["p"] >= 0 and R.cigar_blocks(r["p"], r["cg"])[-1][1] + 45 < lens[r["c"]])]
@@ -91,6 +113,9 @@ def scenarios(draw):
     if not models:
         sc["opts"] += ["--no_model_construction"]
     sc["tq"], sc["gq"], sc["norm"], sc["models"] = tq, gq, norm, models
+    # the in-memory summary of multi-mapped reads is another code path than the one read back from disk
+    if src.bool(0.4):
+        sc["opts"] += ["--high_memory"]
     return sc
 
 
@@ -145,6 +170,17 @@ def evaluate(case, ctx):
             return
         rows = parse.read_assignments(tsvp)
         records = parse.records_of(rows)
+        # a read that is reported once, for a single gene, is uniquely assigned at the gene level whatever happened to
+        # its other alignments: its gene-level type (additional_info) must not call it ambiguous
+        per_rid = Counter(k_[0] for k_ in records)
+        for key_, rws_ in records.items():
+            genes_ = set(x["gene"] for x in rws_ if x["gene"] != ".")
+            if per_rid[key_[0]] == 1 and len(genes_) == 1 and len(set(x["isoform"] for x in rws_)) == len(rws_) and \
+                    rws_[0]["info"].get("gene_assignment") in ("ambiguous", "inconsistent_ambiguous"):
+                ctx.violation("C02:read-reported-for-one-gene-only-has-an-ambiguous-gene-level-type",
+                              {"read": key_[0], "lines": [[x["isoform"], x["gene"], x["type"],
+                                                           x["info"].get("gene_assignment")] for x in rws_][:4],
+                               "opts": sc["opts"]}, case)
         nblocks = {}
         for b in parse.bed12(bedp):
             nblocks[(b["name"], b["chr"], b["start"] + 1, b["end"])] = b["count"]
